@@ -55,6 +55,19 @@ pub struct ImgStats {
     pub check_ms_max: f64,
     pub other_check_failures: usize,
     pub cycles_measured: usize,
+    pub freelist_transitions_checked: usize,
+    pub freelist_transitions_nontrivial: usize,
+    pub freelist_allocations_replayed: u64,
+    pub freelist_releases_replayed: u64,
+    pub freelist_pages_written_checked: u64,
+    pub freelist_max_portions: u64,
+    pub freelist_fragmented_lists: usize,
+    pub freelist_inplace_rewrites: u64,
+    pub freelist_ms_total: f64,
+    pub lookups_compared: u64,
+    pub lookups_present: u64,
+    pub lookups_vs_nomt: u64,
+    pub branches_partly_compressed: u64,
 }
 
 impl ImgStats {
@@ -87,6 +100,19 @@ impl ImgStats {
         self.check_ms_max = self.check_ms_max.max(o.check_ms_max);
         self.other_check_failures += o.other_check_failures;
         self.cycles_measured += o.cycles_measured;
+        self.freelist_transitions_checked += o.freelist_transitions_checked;
+        self.freelist_transitions_nontrivial += o.freelist_transitions_nontrivial;
+        self.freelist_allocations_replayed += o.freelist_allocations_replayed;
+        self.freelist_releases_replayed += o.freelist_releases_replayed;
+        self.freelist_pages_written_checked += o.freelist_pages_written_checked;
+        self.freelist_max_portions = self.freelist_max_portions.max(o.freelist_max_portions);
+        self.freelist_fragmented_lists += o.freelist_fragmented_lists;
+        self.freelist_inplace_rewrites += o.freelist_inplace_rewrites;
+        self.freelist_ms_total += o.freelist_ms_total;
+        self.lookups_compared += o.lookups_compared;
+        self.lookups_present += o.lookups_present;
+        self.lookups_vs_nomt += o.lookups_vs_nomt;
+        self.branches_partly_compressed += o.branches_partly_compressed;
     }
 }
 
@@ -133,8 +159,8 @@ fn parse_kv_line(s: &str) -> HashMap<String, u64> {
 /// page numbers (WPageDup, WPageRange) violate C16 as well.
 fn relevant(prop: &str, check: &str, code: &str) -> bool {
     match prop {
-        "C19" => matches!(check, "decode" | "wf_pages_disjoint_ln" | "wf_pages_disjoint_bbn" | "wf_manifest" | "occupancy" | "frontier"),
-        _ => check != "frontier" && code != "WPageCover",
+        "C19" => matches!(check, "decode" | "wf_pages_disjoint_ln" | "wf_pages_disjoint_bbn" | "wf_manifest" | "occupancy" | "frontier" | "freelist"),
+        _ => check != "frontier" && check != "freelist" && code != "WPageCover",
     }
 }
 
@@ -238,6 +264,39 @@ fn check_point<H: HashAlgorithm>(
         fail(out, t[0], format!("image check {} failed: {}", t[0], t[1..].join(" ")));
     }
     out.stats.images += 1;
+    // allocator mirror (FreeList.v): the transition from the previous check point's image to this
+    // one is the one the mirror computes; then remember this image for the next check point
+    let t_fl = std::time::Instant::now();
+    if decode_ok {
+        let fl = r.model.ask_multi("flcheck");
+        if fl.first().map(|l| l != "nosnap").unwrap_or(false) {
+            for l in &fl {
+                let t: Vec<&str> = l.split(' ').collect();
+                if t.len() < 3 {
+                    continue;
+                }
+                if t[2] != "ok" {
+                    fail(out, "freelist", format!("free-list check {} {} failed: {}", t[0], t[1], t[2..].join(" ")));
+                }
+                if t[1] == "transition" {
+                    let kv = parse_kv_line(l);
+                    let g = |k: &str| kv.get(k).copied().unwrap_or(0);
+                    out.stats.freelist_transitions_checked += 1;
+                    if g("allocs") + g("freed") > 0 {
+                        out.stats.freelist_transitions_nontrivial += 1;
+                    }
+                    out.stats.freelist_allocations_replayed += g("allocs");
+                    out.stats.freelist_releases_replayed += g("freed");
+                    out.stats.freelist_pages_written_checked += g("written");
+                    out.stats.freelist_max_portions = out.stats.freelist_max_portions.max(g("portions"));
+                    out.stats.freelist_fragmented_lists += g("frag") as usize;
+                    out.stats.freelist_inplace_rewrites += g("inplace");
+                }
+            }
+        }
+    }
+    let _ = r.model.ask("flsnap");
+    out.stats.freelist_ms_total += t_fl.elapsed().as_secs_f64() * 1e3;
     if !decode_ok {
         do_flip(&flip);
         out.stats.check_ms_total += t0.elapsed().as_secs_f64() * 1e3;
@@ -267,6 +326,158 @@ fn check_point<H: HashAlgorithm>(
             if g[3] == "o" && g.get(4).map(|h| *h != hex(&vh[&vid][..])).unwrap_or(true) {
                 fail(out, "abs", format!("key {}: the value hash recorded in the overflow cell is not the hash of the value", g[0]));
                 break;
+            }
+        }
+    }
+
+    // the read path (coq/theories/ReadPath.v, the mirror of Index::lookup / search_branch /
+    // LeafNode::get): 40 lookups on the decoded image - the extreme keys; separators found by the
+    // decoder (separators behind the prefix-compressed ones, first separators of branches, leaf
+    // separators), the keys just below them and the first present keys at or above them; the keys
+    // next to the first and the last present key; present keys and their neighbours (last bit
+    // flipped); unrelated keys - against the model state's value and against NOMT's own read
+    {
+        let expect: HashMap<String, (usize, u64)> = dump
+            .iter()
+            .filter_map(|l| {
+                let mut t = l.split(' ');
+                let k = t.next()?;
+                let vid: u32 = t.next()?.parse().ok()?;
+                Some((k.to_string(), by_id.get(&vid).and_then(|d| by_digest.get(d)).copied().unwrap_or((usize::MAX, 0))))
+            })
+            .collect();
+        let present: Vec<&str> = dump.iter().filter_map(|l| l.split(' ').next()).collect();
+        let seps = r.model.ask_multi("imgseps 3");
+        let mut keys: Vec<String> = Vec::new();
+        let mut push = |k: String| {
+            if k.len() == 64 && keys.len() < 40 && !keys.contains(&k) {
+                keys.push(k);
+            }
+        };
+        let pred = |k: &str| -> Option<String> {
+            let mut b = unhex(k);
+            if b.len() != 32 || b.iter().all(|x| *x == 0) {
+                return None;
+            }
+            for x in b.iter_mut().rev() {
+                let (v, borrow) = x.overflowing_sub(1);
+                *x = v;
+                if !borrow {
+                    break;
+                }
+            }
+            Some(hex(&b))
+        };
+        let succ = |k: &str| -> Option<String> {
+            let mut b = unhex(k);
+            if b.len() != 32 || b.iter().all(|x| *x == 0xff) {
+                return None;
+            }
+            for x in b.iter_mut().rev() {
+                let (v, carry) = x.overflowing_add(1);
+                *x = v;
+                if !carry {
+                    break;
+                }
+            }
+            Some(hex(&b))
+        };
+        // the extreme keys
+        push("00".repeat(32));
+        push("ff".repeat(32));
+        // the separators the decoder found (first separators of branches: the Index keys; leaf
+        // separators: the keys find_key_pos compares with) and the keys just below them
+        for l in &seps {
+            if let Some((_, k)) = l.split_once(' ') {
+                push(k.to_string());
+                if let Some(p) = pred(k) {
+                    push(p);
+                }
+                // the first present key at or above the separator (the first cell of that leaf, or
+                // of a later one)
+                let at = present.partition_point(|p| *p < k);
+                if at < present.len() {
+                    push(present[at].to_string());
+                }
+            }
+        }
+        let n = present.len();
+        if n > 0 {
+            // next below the first and next above the last present key
+            if let Some(p) = pred(present[0]) {
+                push(p);
+            }
+            if let Some(q) = succ(present[n - 1]) {
+                push(q);
+            }
+            let picks = 8.min(n);
+            for j in 0..picks {
+                let idx = if picks == 1 { 0 } else { j * (n - 1) / (picks - 1) };
+                push(present[idx].to_string());
+                let mut nb = unhex(present[idx]);
+                if nb.len() == 32 {
+                    nb[31] ^= 1;
+                    push(hex(&nb));
+                }
+            }
+        }
+        for j in 0..40u8 {
+            let mut kb = [0u8; 32];
+            let mut h = fnv64(&[j, (i & 0xff) as u8, (i >> 8) as u8, n as u8]);
+            for c in kb.chunks_mut(8) {
+                h = fnv64(&h.to_le_bytes());
+                c.copy_from_slice(&h.to_le_bytes());
+            }
+            push(hex(&kb));
+        }
+        drop(push);
+        let reply = r.model.ask_multi(&format!("imglookup {}", keys.join(" ")));
+        for l in &reply {
+            let t: Vec<&str> = l.split(' ').collect();
+            if t[0] == "prefix_unrecoverable" {
+                out.stats.branches_partly_compressed += t.get(3).and_then(|x| x.parse::<u64>().ok()).unwrap_or(0);
+                if t.get(1).copied() != Some("0") {
+                    fail(out, "readpath", format!("{} branch nodes record a prefix but no prefix-compressed separator: the mirror cannot recover the prefix bits find_key_pos compares with", t.get(1).copied().unwrap_or("?")));
+                }
+                continue;
+            }
+            if t.len() < 3 {
+                continue;
+            }
+            let got: Option<(usize, u64)> = if t[1] == "none" { None } else { Some((t[1].parse().unwrap_or(usize::MAX - 1), u64::from_str_radix(t[2], 16).unwrap_or(0))) };
+            let route = t.last().copied().unwrap_or("");
+            let exp = expect.get(t[0]).copied();
+            out.stats.lookups_compared += 1;
+            if exp.is_some() {
+                out.stats.lookups_present += 1;
+            }
+            if got != exp {
+                fail(out, "readpath", format!("key {}: the read path mirror on the decoded image returns {:?} (length, fnv64; route {}), the model state holds {:?}", t[0], got, route, exp));
+                break;
+            }
+            if let Some(db) = r.db.as_ref() {
+                let kb: [u8; 32] = match unhex(t[0]).try_into() {
+                    Ok(k) => k,
+                    Err(_) => continue,
+                };
+                match std::panic::catch_unwind(std::panic::AssertUnwindSafe(|| db.read(kb))) {
+                    Ok(Ok(v)) => {
+                        out.stats.lookups_vs_nomt += 1;
+                        let real = v.map(|v| (v.len(), fnv64(&v)));
+                        if real != got {
+                            fail(out, "readpath", format!("key {}: NOMT's read returns {:?} (length, fnv64), the read path mirror on the decoded image {:?} (route {})", t[0], real, got, route));
+                            break;
+                        }
+                    }
+                    Ok(Err(e)) => {
+                        fail(out, "readpath", format!("key {}: NOMT's read failed: {:#}", t[0], e));
+                        break;
+                    }
+                    Err(_) => {
+                        fail(out, "readpath", format!("key {}: NOMT's read panicked (mirror route {})", t[0], route));
+                        break;
+                    }
+                }
             }
         }
     }
@@ -665,6 +876,75 @@ pub fn crashes(rng: &mut Rng, thorough: bool) -> ImgScenario {
     ImgScenario { ops, label: format!("crashes ht={} rounds={} rb={}", ht, rounds, cfg.rollback as u8), cycle_ends: vec![] }
 }
 
+/// keys with few significant bits (a dense run of two- or three-byte numbers, then zeros) and values
+/// of which two or three fill a leaf: a separator is the shortest prefix of a leaf's first key that
+/// exceeds the previous leaf's last key, zero padded - for neighbouring numbers that IS the first
+/// key.  So separators are present keys, in leaves and as first separators of branch nodes (the exact
+/// hits of find_key_pos and of Index::lookup, rare with random 256-bit keys), and there are several
+/// branch nodes
+pub fn short_keys(rng: &mut Rng, thorough: bool) -> ImgScenario {
+    let mut ops = Vec::new();
+    let (mut sid, mut cid) = (0u32, 0u32);
+    let cfg = small_cfg(rng, 64000);
+    ops.push(Op::Open(cfg.clone()));
+    let nkeys = if thorough { rng.range(3000, 6000) } else { rng.range(1500, 3000) };
+    // variant "tail": the numbers sit in the LAST two bytes behind a fixed 30-byte prefix, among a few
+    // hundred unrelated keys: a branch node that starts inside the run compresses a long prefix, and
+    // must stop compressing when the run ends (prefix_compressed < n: the uncompressed tail)
+    let tail = rng.chance(1, 3);
+    let sig = if tail { 2usize } else { *rng.pick(&[2usize, 2, 3]) };
+    let span = nkeys * 4 / 3;
+    let base = rng.below((1u64 << (8 * sig as u64)) - span);
+    let fixed = rng.key();
+    let mut keys: Vec<Key> = (0..span)
+        .filter(|_| rng.chance(3, 4))
+        .map(|j| {
+            let v = (base + j).to_be_bytes();
+            if tail {
+                let mut k = fixed;
+                k[30..].copy_from_slice(&v[6..]);
+                k
+            } else {
+                let mut k = [0u8; 32];
+                k[..sig].copy_from_slice(&v[8 - sig..]);
+                k
+            }
+        })
+        .collect();
+    if tail {
+        for _ in 0..rng.range(150, 400) {
+            keys.push(rng.key());
+        }
+        keys.sort();
+        keys.dedup();
+    }
+    let rounds = rng.range(2, 4);
+    for round in 0..rounds {
+        let mut batch: Vec<(Key, Acc)> = Vec::new();
+        for k in keys.iter() {
+            if round == 0 || rng.chance(1, 4) {
+                if round > 0 && rng.chance(1, 3) {
+                    batch.push((*k, Acc::Write(None)));
+                } else {
+                    let len = *rng.pick(&[1100usize, 1200, 1300, 1332]);
+                    batch.push((*k, Acc::Write(Some((len, rng.next() % 1_000_000)))));
+                }
+            }
+        }
+        if batch.is_empty() {
+            continue;
+        }
+        sid += 1;
+        cid += 1;
+        ops.extend(commit_ops(sid, cid, batch, false));
+        if rng.chance(1, 3) {
+            ops.push(Op::Close);
+            ops.push(Op::Open(cfg.clone()));
+        }
+    }
+    ImgScenario { ops, label: format!("short_keys keys={} sig={} tail={} rounds={}", keys.len(), sig, tail as u8, rounds), cycle_ends: vec![] }
+}
+
 pub fn generate(prop: &str, rng: &mut Rng, thorough: bool) -> ImgScenario {
     match prop {
         "C19" => match rng.below(12) {
@@ -675,9 +955,11 @@ pub fn generate(prop: &str, rng: &mut Rng, thorough: bool) -> ImgScenario {
             8 => plain(scen::c10(rng, thorough)),
             _ => plain(scen::c09(rng, thorough)),
         },
-        _ => match rng.below(16) {
+        _ => match rng.below(18) {
+            16..=17 => short_keys(rng, thorough),
             12..=15 => crashes(rng, thorough),
-            0..=1 => plain(scen::c01(rng, thorough)),
+            0 => plain(scen::c01(rng, thorough)),
+            1 => plain(if rng.chance(1, 2) { scen::c01_prefix_tail(rng, false) } else { scen::c01_clusters(rng, false) }),
             2..=3 => plain(scen::c02(rng, thorough)),
             4 => plain(scen::c09(rng, thorough)),
             5..=6 => plain(scen::c10(rng, thorough)),
@@ -717,6 +999,19 @@ fn stats_json(s: &ImgStats) -> J {
         ("diagnostic_stored_pages_without_reachable_node", J::Int(s.unneeded_stored as i64)),
         ("failed_checks_outside_this_property", J::Int(s.other_check_failures as i64)),
         ("cycles_measured", J::Int(s.cycles_measured as i64)),
+        ("freelist_transitions_checked", J::Int(s.freelist_transitions_checked as i64)),
+        ("freelist_transitions_with_allocations_or_releases", J::Int(s.freelist_transitions_nontrivial as i64)),
+        ("freelist_allocations_replayed", J::Int(s.freelist_allocations_replayed as i64)),
+        ("freelist_releases_replayed", J::Int(s.freelist_releases_replayed as i64)),
+        ("freelist_pages_written_checked", J::Int(s.freelist_pages_written_checked as i64)),
+        ("freelist_max_portions_in_a_transition", J::Int(s.freelist_max_portions as i64)),
+        ("freelist_lists_in_the_fragmented_shape", J::Int(s.freelist_fragmented_lists as i64)),
+        ("freelist_old_portion_pages_rewritten_in_place_with_identical_content", J::Int(s.freelist_inplace_rewrites as i64)),
+        ("freelist_ms_per_image_mean", J::Num(if s.images > 0 { s.freelist_ms_total / s.images as f64 } else { 0.0 })),
+        ("lookups_compared", J::Int(s.lookups_compared as i64)),
+        ("lookups_of_present_keys", J::Int(s.lookups_present as i64)),
+        ("lookups_also_compared_with_nomt_read", J::Int(s.lookups_vs_nomt as i64)),
+        ("branch_pages_with_uncompressed_tail", J::Int(s.branches_partly_compressed as i64)),
         ("ms_per_image_mean", J::Num(if s.images > 0 { s.check_ms_total / s.images as f64 } else { 0.0 })),
         ("ms_per_image_max", J::Num(s.check_ms_max)),
     ])
